@@ -11,7 +11,7 @@ ID = "C08"
 LEVEL = "exploration"
 RULE = ("scenario = history of <=10 client steps {send, recv, ping, close(status, reason, timeout), send_close(status, "
         "reason), shutdown, wait} interleaved in virtual time with a peer script {data, ping, close frame with/without "
-        "body, end of stream, reset, silence} and a peer reaction to the client's close {prompt close, close after "
+        "body, end of stream, reset, silence, a step of the client's wall clock} and a peer reaction to the client's close {prompt close, close after "
         "d<timeout, close after d>timeout, never, end of stream, chatty: data frames keep flowing, trickle: one byte at a "
         "time}; statuses include -1, 0, 999, 1000, 4999, 65535, 65536.  Reference state machine checked after every "
         "step: (1) <=1 close frame written by close() or as automatic reply; (2) it carries !H status || reason; (3) "
@@ -122,6 +122,12 @@ def expand(item, seed):
                                                    {"op": "send", "len": 1}, {"op": "recv"}, {"op": "ping"},
                                                    {"op": "close", "status": 1000, "rlen": 0, "timeout": tmo}],
                                    "script": script, "reaction": reaction, "timeout": 2 * S, "seed": 1}
+        for tmo in (S, 3 * S):
+            for dj in (-30.0, -0.75, 0.75, 30.0):
+                for reaction in ("never", "reply_slow", "chatty"):
+                    # the wall clock steps a quarter of the way into close()'s wait
+                    yield {"steps": [{"op": "close", "status": 1000, "rlen": 0, "timeout": tmo}], "script": [{"t": tmo // 4, "clock_jump": dj}],
+                           "reaction": reaction, "timeout": 4 * S, "seed": 1}
         for tmo in (S, 2 * S):
             for frac in (4, 2):
                 for reaction in ("never", "reply_slow", "reply"):
@@ -171,6 +177,10 @@ def gen(rng):
         else:
             script.append({"t": t, "end": rng.choice(("eof", "reset"))})
             break
+    if rng.random() < 0.12:
+        # the wall clock steps while the history runs (possibly inside close()'s wait)
+        script.append({"t": rng.choice((1, S // 4, S // 2, S, 2 * S)), "clock_jump": rng.choice((-1, 1)) * rng.choice((0.4, 2.0, 30.0))})
+        script.sort(key=lambda d: d["t"])
     sc = {"steps": steps, "script": script, "reaction": rng.choice(REACTIONS), "timeout": rng.choice((S, 2 * S)),
           "seed": rng.randrange(1 << 30)}
     if rng.random() < 0.2:
@@ -490,6 +500,8 @@ def run(sc, choices=None):
         for it in script:
             if "hex" in it:
                 bytes.fromhex(it["hex"])
+            if it.get("clock_jump") is not None and not 0 < abs(float(it["clock_jump"])) <= 1000:
+                raise InvalidScenario("clock_jump")
     except (KeyError, TypeError, ValueError) as e:
         raise InvalidScenario(str(e))
     link = {}
